@@ -78,6 +78,19 @@ theorem C02_every_schedule (xs : List Val) (hit : Val → Bool) (cs : List Nat) 
   rw [Run.slice_ofList] at this
   exact ⟨_, this⟩
 
+/-- **C02 (end to end).** any chain, then any schedule of the early-exit transition system over
+    the source of the final phase with the pipeline's own hit function: `find` returns the first
+    match of the sequential stream -/
+theorem C02_find_all_schedules (s : Src) (ops : List Op) (q : Val → Bool) (cs : List Nat)
+    (hne : cs ≠ []) (hpos : ∀ c ∈ cs, 0 < c) (sched : List Nat)
+    (hd : Run.AllDone (Run.run (Run.init (Run.ofList (Par.build s ops).1.src.items)
+      (some (Par.build s ops).1.src.items.length) ((Par.build s ops).1.hit q) cs) sched)) :
+    (Par.build s ops).1.term
+      (Run.execOf (Run.run (Run.init (Run.ofList (Par.build s ops).1.src.items)
+        (some (Par.build s ops).1.src.items.length) ((Par.build s ops).1.hit q) cs) sched))
+      (.find q) = .opt ((seqVals s.items ops).find? q) :=
+  C02_find s ops _ q (Or.inr (C02_every_schedule _ _ cs hne hpos sched hd))
+
 /-- what each worker reports is the first match among the elements of its own chunks -/
 theorem C02_worker_reports_first (src : Nat → Val) (len : Option Nat) (hit : Val → Bool)
     (cs : List Nat) (hpos : ∀ c ∈ cs, 0 < c) (sched : List Nat)
